@@ -86,16 +86,22 @@ def printReg (m : Machine) : String :=
   s!"CX : 0x{h m.cx}\t\tSI : 0x{h m.si}\n" ++ s!"DX : 0x{h m.dx}\t\tDI : 0x{h m.di}\n" ++ "\n" ++
   s!"CS : 0x{h m.cs}\t\tSS : 0x{h m.ss}\n" ++ s!"DS : 0x{h m.ds}\t\tES : 0x{h m.es}\n"
 
-/-- the byte dump loop shared by the three `print mem` forms: `start..=end` -/
-def dumpRange (m : Machine) (start stop : Nat) : String :=
-  let n := stop + 1 - start
-  let (s, ctr) := (List.range n).foldl (fun (acc : String × Nat) k =>
+/-- the cells a memory dump shows: the bytes of the inclusive range `start..=end`, in address order -/
+def dumpCells (m : Machine) (start stop : Nat) : List (BitVec 8) :=
+  (List.range (stop + 1 - start)).map fun k => m.readByte (start + k)
+
+/-- the layout loop shared by the three `print mem` forms: two upper-case hex digits and a tab per
+    cell, an extra tab after every 8th, a line break after every 16th and at the end of a partial row -/
+def renderCells (cells : List (BitVec 8)) : String :=
+  let (s, ctr) := cells.foldl (fun (acc : String × Nat) b =>
     let (s, ctr) := acc
-    let s := s ++ hex2 (m.readByte (start + k)).toNat ++ "\t"
+    let s := s ++ hex2 b.toNat ++ "\t"
     let s := if (ctr + 1) % 8 == 0 then s ++ "\t" else s
     let s := if (ctr + 1) % 16 == 0 then s ++ "\n" else s
     (s, (ctr + 1) % 16)) ("", 0)
   if ctr != 0 then s ++ "\n" else s
+
+def dumpRange (m : Machine) (start stop : Nat) : String := renderCells (dumpCells m start stop)
 
 inductive PrintCmd where
   | flags | reg | range (a b : Nat) | span (a n : Nat) | dsSpan (n : Nat)
